@@ -60,7 +60,12 @@ class Sym:
 
 
 class SStr(Sym):
-    pass
+    # concatenation is allowed natively so that contract builders can assemble inputs ("[" + core + "]")
+    def __add__(self, other):
+        return SStr(z3.Concat(strterm(self), strterm(other)))
+
+    def __radd__(self, other):
+        return SStr(z3.Concat(strterm(other), strterm(self)))
 
 
 class SInt(Sym):
